@@ -309,5 +309,5 @@ def checks(h):
         "mod": irgen.module_recipes(depth=2, max_ops=5, max_blocks=4),
         "entry": st.sampled_from(["dce", "dce", "greedy", "canonicalize"]),
     })
-    h.hyp("dce", strat, lambda r: run(h, r), h.scale(50, 4000), 1)
-    h.hyp("dce_semantic", sem_recipes(), lambda r: run_sem(h, r), h.scale(60, 1500), 2)
+    h.hyp("dce", strat, lambda r: run(h, r), h.scale(50, 500), 1)
+    h.hyp("dce_semantic", sem_recipes(), lambda r: run_sem(h, r), h.scale(40, 300), 2)
